@@ -100,6 +100,9 @@ func (e *Env) eval(x Expr) *Val {
 		if v, ok := e.vars[x.Name]; ok {
 			return v
 		}
+		if g, ok := e.tr.ghosts[x.Name]; ok {
+			return mkVal(e.st.get(e.tr.u, g), e.tr.u.compSort[g], nil)
+		}
 		if v := e.tr.globalIdent(x.Name); v != nil {
 			return v
 		}
@@ -407,9 +410,36 @@ func (e *Env) lookupField(t types.Type, name string) ([]int, types.Type) {
 	obj, idx, _ := types.LookupFieldOrMethod(t, true, e.tr.tpkg, name)
 	v, ok := obj.(*types.Var)
 	if !ok || !v.IsField() {
+		// unexported field of a foreign struct: search by name, breadth first through embedded structs
+		if path, ft := findFieldByName(t, name, 0); path != nil {
+			return path, ft
+		}
 		evalFail("no field %s in %v", name, t)
 	}
 	return idx, v.Type()
+}
+
+func findFieldByName(t types.Type, name string, depth int) ([]int, types.Type) {
+	if p, ok := t.Underlying().(*types.Pointer); ok {
+		t = p.Elem()
+	}
+	st, ok := t.Underlying().(*types.Struct)
+	if !ok || depth > 4 {
+		return nil, nil
+	}
+	for i := 0; i < st.NumFields(); i++ {
+		if st.Field(i).Name() == name {
+			return []int{i}, st.Field(i).Type()
+		}
+	}
+	for i := 0; i < st.NumFields(); i++ {
+		if st.Field(i).Embedded() {
+			if path, ft := findFieldByName(st.Field(i).Type(), name, depth+1); path != nil {
+				return append([]int{i}, path...), ft
+			}
+		}
+	}
+	return nil, nil
 }
 
 // walkAddr follows a field index path starting from a struct at addr.
@@ -564,6 +594,35 @@ func (e *Env) evalCall(x *Call) *Val {
 		return boolVal("(< (obase " + arg(0).E() + ") ALLOC_0)")
 	case "fresh":
 		return boolVal("(>= (obase " + arg(0).E() + ") " + e.old.get(u, "ALLOC") + ")")
+	case "freshObj":
+		// a newly allocated object: its own base, allocated between the pre-state and now
+		p := arg(0).E()
+		return boolVal(fmt.Sprintf("(and (> %s 0) (= (obase %s) %s) (= (ftag %s) 0) (>= %s %s) (< %s %s))", p, p, p, p, p, e.old.get(u, "ALLOC"), p, e.st.get(u, "ALLOC")))
+	case "upd":
+		// upd(arr, k, v): SMT array store on ghost maps
+		a := arg(0)
+		return mkVal("(store "+a.E()+" "+arg(1).E()+" "+e.coerceNilLike(arg(2), arrayElemSort(a.Sort)).E()+")", a.Sort, nil)
+	case "asPtr":
+		// asPtr(ifaceValue, "*T"): the pointer held by an interface value whose dynamic type is *T
+		sl, ok := x.Args[1].(*StrLit)
+		if !ok {
+			evalFail("asPtr wants a type literal")
+		}
+		t := tr.resolveType(sl.V)
+		return mkVal(ifPart(arg(0), 1), "Int", t)
+	case "payload":
+		// payload(ifaceValue): the pointer held by an interface value (dynamic type is some pointer type)
+		return mkVal(ifPart(arg(0), 1), "Int", types.Typ[types.UnsafePointer])
+	case "holds":
+		// holds(ifaceValue, "T"): the dynamic type of the interface value is T
+		sl, ok := x.Args[1].(*StrLit)
+		if !ok {
+			evalFail("holds wants a type literal")
+		}
+		return boolVal(eq(ifPart(arg(0), 0), fmt.Sprint(u.typeID(tr.resolveType(sl.V)))))
+	case "lower":
+		e.tr.declLower()
+		return mkVal("(str_lower "+arg(0).E()+")", "String", types.Typ[types.String])
 	case "hasPrefix":
 		return boolVal("(str.prefixof " + arg(1).E() + " " + arg(0).E() + ")")
 	case "hasSuffix":
@@ -619,6 +678,13 @@ func (e *Env) evalCall(x *Call) *Val {
 	}
 	evalFail("unknown function %s in contract expression", x.Fn)
 	return nil
+}
+
+func (e *Env) coerceNilLike(v *Val, sort string) *Val {
+	if v.Sort != "Nil" {
+		return v
+	}
+	return e.nilOf(&Val{Sort: sort})
 }
 
 func (e *Env) coerce(v *Val, typeText string) *Val {
